@@ -153,3 +153,106 @@ Proof.
   induction ops as [|o ops IH]; intros st; [reflexivity|].
   simpl. destruct (do_op fuel o st) as [ob st']. simpl. rewrite IH. reflexivity.
 Qed.
+
+(* ------------------------------------------------------------------ created but not started *)
+
+(* Creating a query object runs nothing (a Python generator function only runs at the first
+   `next`): the object holds the name and the arguments, no fact list and no definition.  So
+   before its first resumption nothing is fixed: whatever is done to the engine between
+   `q = yp.query(..)` and the first `next(q)` - and whatever the engine was when q was
+   created - the first `next` is computed from the engine of THAT moment (and from then on
+   Engine/ResolveLate.v resolution_at_first_resumption applies). *)
+
+(* operations that neither resume nor close the suspended query number i *)
+Definition leaves (i : nat) (o : op) : bool :=
+  match o with ONext j | OClose j => negb (Nat.eqb i j) | _ => true end.
+
+Lemma set_nth_other {A} (l : list A) : forall j i x, i <> j -> nth_error (set_nth l j x) i = nth_error l i.
+Proof.
+  induction l as [|y l IH]; intros j i x Hne; [destruct j; reflexivity|].
+  destruct j as [|j]; destruct i as [|i]; simpl; try reflexivity; [congruence|].
+  apply IH. congruence.
+Qed.
+
+Lemma do_op_keeps_susp fuel o st i x :
+  leaves i o = true -> nth_error (st_susp st) i = Some x ->
+  nth_error (st_susp (snd (do_op fuel o st))) i = Some x.
+Proof.
+  intros Hl Hn.
+  destruct o as [name sty d | sc ow | name vals app | | name n | j | j]; cbn [do_op].
+  - exact Hn.
+  - destruct (load (e_ctx (st_eng st)) sc ow); exact Hn.
+  - exact Hn.
+  - exact Hn.
+  - cbn [snd st_susp]. rewrite nth_error_app1; [exact Hn|]. apply nth_error_Some. congruence.
+  - cbn [leaves] in Hl. apply negb_true_iff, Nat.eqb_neq in Hl.
+    destruct (nth_error (st_susp st) j) as [[[g|] n]|]; try exact Hn.
+    destruct (g (st_eng st)) as [[| | |]|s k]; cbn [snd st_susp]; rewrite set_nth_other by exact Hl; exact Hn.
+  - cbn [leaves] in Hl. apply negb_true_iff, Nat.eqb_neq in Hl.
+    destruct (nth_error (st_susp st) j) as [[g n]|]; try exact Hn.
+    cbn [snd st_susp]. rewrite set_nth_other by exact Hl. exact Hn.
+Qed.
+
+Lemma exec_ops_keeps_susp fuel i x ops : forall st,
+  forallb (leaves i) ops = true -> nth_error (st_susp st) i = Some x ->
+  nth_error (st_susp (exec_ops fuel ops st)) i = Some x.
+Proof.
+  induction ops as [|o ops IH]; intros st Hl Hn; [exact Hn|].
+  cbn [forallb] in Hl. apply andb_true_iff in Hl. destruct Hl as [Ho Hl].
+  unfold exec_ops. cbn [fold_left]. apply IH; [exact Hl|]. apply do_op_keeps_susp; assumption.
+Qed.
+
+(* what `next` reports for a step of the generator *)
+Definition step_obs (n : nat) (st : step) : obs :=
+  match st with
+  | Done Norm => otag "stop" []
+  | Done Cut => otag "cut" []
+  | Done Raise => otag "raised" []
+  | Done Oof => otag "oof" []
+  | Yield s _ => otag "ans" [ans_obs n s]
+  end.
+
+(* the query object created by `start` in ANY state is the same closed object - it does not
+   mention the engine it was created in - and it is still that object after any operations
+   (engine changes, other queries) that do not resume it *)
+Theorem created_query_unresolved fuel name n st ops :
+  let i := length (st_susp st) in
+  forallb (leaves i) ops = true ->
+  nth_error (st_susp (exec_ops fuel ops (snd (do_op fuel (OStart name n) st)))) i =
+  Some (Some (query_gen fuel name (seq 0 n) n []), n).
+Proof.
+  intros i Hl. apply exec_ops_keeps_susp; [exact Hl|].
+  cbn [do_op snd st_susp]. unfold i. rewrite nth_error_app2 by lia. rewrite Nat.sub_diag. reflexivity.
+Qed.
+
+(* a `next` applies the suspended generator to the engine of the moment of the `next` *)
+Theorem next_uses_current_engine fuel i st g n :
+  nth_error (st_susp st) i = Some (Some g, n) ->
+  fst (do_op fuel (ONext i) st) = step_obs n (g (st_eng st)).
+Proof.
+  intros Hn. cbn [do_op]. rewrite Hn. destruct (g (st_eng st)) as [[| | |]|s k]; reflexivity.
+Qed.
+
+(* together: the first `next` of a query created earlier sees the engine of the first `next` *)
+Theorem unstarted_query_sees_engine_of_first_next fuel name n st ops :
+  let i := length (st_susp st) in
+  forallb (leaves i) ops = true ->
+  let st' := exec_ops fuel ops (snd (do_op fuel (OStart name n) st)) in
+  fst (do_op fuel (ONext i) st') = step_obs n (query_gen fuel name (seq 0 n) n [] (st_eng st')).
+Proof.
+  intros i Hl st'. apply next_uses_current_engine. apply created_query_unresolved. exact Hl.
+Qed.
+
+(* witness: p(f) and p(old) exist when q is created; before its first next p(g) is put in front
+   of the facts and p(old) is replaced by p(new): q answers g, f, new *)
+Local Open Scope string_scope.
+Example unstarted_query_witness :
+  let df (a : string) := mkDef (Some 1) [mkClause 0 [GUnify 0 (d a)]] in
+  let ld (a : string) := OLoad (mkScript false [SDef (mkkey (d "p") (AFix 1)) (df a)]) true in
+  run_history 3 5 []
+    [OAssert (d "p") [d "f"] true; ld "old"; OStart (d "p") 1; ld "new"; OAssert (d "p") [d "g"] false;
+     ONext 0; ONext 0; ONext 0; ONext 0] =
+  OL (map (fun o => OL [o; OL []])
+       [otag "ok" []; otag "ok" []; otag "ok" []; otag "ok" []; otag "ok" [];
+        otag "ans" [OL [OS (d "g")]]; otag "ans" [OL [OS (d "f")]]; otag "ans" [OL [OS (d "new")]]; otag "stop" []]).
+Proof. vm_compute. reflexivity. Qed.
